@@ -258,6 +258,55 @@ def coq_eval_cases(header, case_terms, case_type, fn, shard=250, timeout=900, wo
     return results, faults
 
 
+def run_isolated(fn, arg, timeout=600):
+    """Run fn(arg) in a forked child and return ("ok", result) | ("aborted", reason).
+    GLPK now and then aborts the whole process on an internal assertion (e.g. bflib/sgf.c); a check must
+    survive that and count the case instead of dying."""
+    import pickle
+    import select
+    import signal
+    r, w = os.pipe()
+    pid = os.fork()
+    if pid == 0:
+        code = 0
+        try:
+            os.close(r)
+            try:
+                payload = pickle.dumps(("ok", fn(arg)))
+            except BaseException as e:  # noqa
+                payload = pickle.dumps(("raised", "%s: %s" % (type(e).__name__, e)))
+            with os.fdopen(w, "wb") as f:
+                f.write(payload)
+        except BaseException:
+            code = 3
+        finally:
+            os._exit(code)
+    os.close(w)
+    chunks = []
+    deadline = time.time() + timeout
+    with os.fdopen(r, "rb") as f:
+        while True:
+            left = deadline - time.time()
+            if left <= 0:
+                os.kill(pid, signal.SIGKILL)
+                os.waitpid(pid, 0)
+                return "aborted", "timeout after %ss" % timeout
+            ready, _, _ = select.select([f], [], [], min(left, 5))
+            if ready:
+                b = f.read(1 << 20)
+                if not b:
+                    break
+                chunks.append(b)
+    _, status = os.waitpid(pid, 0)
+    data = b"".join(chunks)
+    if not data:
+        return "aborted", "child died (wait status %d) without a result" % status
+    kind, val = pickle.loads(data)
+    if kind == "raised":
+        raise RuntimeError(val)
+    return "ok", val
+
+
 # ----------------------------------------------------------------------------------------
 # findings, replay, evidence
 # ----------------------------------------------------------------------------------------
